@@ -815,6 +815,14 @@ impl<Writer: Write> Mp4Writer<Writer> {
                 "MP4 MDAT box size exceeds u32::MAX",
             ));
         }
+        // Every sample has its own chunk offset here; the last one may start as late as the end
+        // of the mdat box, which lies ftyp_len bytes beyond the box size checked above.
+        if u64::from(ftyp_len) + mdat_size > u32::MAX as u64 {
+            return Err(io::Error::new(
+                io::ErrorKind::InvalidData,
+                "MP4 chunk offset exceeds u32::MAX",
+            ));
+        }
         Self::write_counted(
             &mut self.writer,
             &mut self.bytes_written,
